@@ -15,6 +15,7 @@ pub mod c10;
 pub mod c11;
 pub mod c12;
 pub mod c13;
+pub mod c14;
 pub mod c15;
 pub mod c16;
 pub mod c19;
@@ -30,6 +31,7 @@ pub fn run(ctx: &Ctx) -> Option<Report> {
         "C04" => c04::run(ctx),
         "C05" => c05::run(ctx),
         "C06" => c06::run(ctx),
+        "C14" => c14::run(ctx),
         "C15" => c15::run(ctx),
         "C16" => c16::run(ctx),
         "C17" => c17::run(ctx),
@@ -56,6 +58,7 @@ pub fn replay(id: &str, case: &serde_json::Value) -> Option<Result<(), String>> 
         "C04" => c04::replay(case),
         "C05" => c05::replay(case),
         "C06" => c06::replay(case),
+        "C14" => c14::replay(case),
         "C15" => c15::replay(case),
         "C16" => c16::replay(case),
         "C17" => c17::replay(case),
